@@ -269,7 +269,21 @@ def b_dict(ex, args, kwargs, line):
     return d
 
 
+def b_super(ex, args, kwargs, line):
+    raise Unsupported("super() outside a method")
+
+
 def b_bytearray(ex, args, kwargs, line):
+    if ex.ctx.bytearray_as_mem:
+        from .bytemem import ByteMem, ZeroBytes
+        if not args:
+            return ByteMem.zeros(0)
+        v = args[0]
+        if isinstance(v, int):
+            return ByteMem.zeros(v)
+        if isinstance(v, SInt):
+            return ZeroBytes(v.t)
+        raise Unsupported("bytearray(...) in byte-memory mode")
     if not args:
         return PList([], "bytearray")
     v = args[0]
@@ -410,11 +424,17 @@ def popcount(ex, v):
     if isinstance(v, int):
         return bin(v).count("1")
     # only for band(x, mask) shapes: the value is a sum of bit_k * 2^k terms; count bits by re-deriving
-    info = getattr(ex, "_band_info", None)
+    from .sym import bit, bits_of
     t = as_int_term(v)
-    bits = ex.ctx.bits_of_masked(t)
-    if bits is None:
+    d = bits_of(t)
+    if d is not None:
+        bs = [z3.If(b, 1, 0) for b in d.values()]
+        return wrap(z3.Sum(bs) if len(bs) > 1 else bs[0]) if bs else 0
+    info = ex.band_terms.get(t.get_id())
+    if info is None:
         raise Unsupported("popcount of a general symbolic int")
+    x, mask = info
+    bits = [bit(x, k) for k in range(mask.bit_length()) if mask >> k & 1]
     return wrap(z3.Sum(bits) if len(bits) > 1 else bits[0])
 
 
